@@ -198,10 +198,10 @@ def check(ck):
             t = prov.origin(g, n, n.ast.value)
             if t == ("item", ("item", ("param", "obj"), ("const", "__jsonclass__")), ("const", 0)):
                 name_vars.add(n.ast.targets[0].id)
-    if len(name_vars) != 1:
+    if len(name_vars) < 1:
         raise AnalysisError("anchor vanished: the class-name variable in jsonclass.load (found %s)" % sorted(name_vars))
-    nv = next(iter(name_vars))
-    empty_guard = [n for n in g.live_nodes() if n.kind == "branch" and dump(n.test) == nv and n.polarity is True]
+    nv = sorted(name_vars)[0]
+    empty_guard = [n for n in g.live_nodes() if n.kind == "branch" and dump(n.test) in name_vars and n.polarity is True]
     # alphabet guard: branch on `<clean> != <name>` (false edge) or fullmatch/match result (true edge)
     alpha_guard = []
     mode = None
